@@ -531,6 +531,105 @@ fn record_corpus(b: &mut Batch, r: &mut StdRng, max_chars: usize) -> usize {
     trace
 }
 
+/// `retrace <violation file> <out dir>`: re-drives the calls of a rejected trace (same
+/// configuration in real syntax, same inputs, same operations and arguments) against the code
+/// as it is now and records the new execution for validation.
+pub fn main_retrace(args: &[String]) -> i32 {
+    let v: Value = serde_json::from_str(&std::fs::read_to_string(&args[0]).expect("violation file")).expect("json");
+    let modes: Vec<RealMode> = match v["configurations"].as_array() {
+        Some(ms) => ms.iter().map(|m| RealMode {
+            name: m["name"].as_str().unwrap_or("M").to_string(),
+            pats: m["patterns"].as_array().unwrap().iter().map(|p| RealPat {
+                pattern: p["pattern"].as_str().unwrap().to_string(), tt: p["token_type"].as_u64().unwrap() as usize,
+                la: p.get("lookahead").filter(|l| !l.is_null()).map(|l| (l["is_positive"].as_bool().unwrap(), l["pattern"].as_str().unwrap().to_string())),
+            }).collect(),
+            trans: m["transitions"].as_array().unwrap().iter().map(|t| (t[0].as_u64().unwrap() as usize, t[1].as_u64().unwrap() as usize)).collect(),
+        }).collect(),
+        None => return 2,
+    };
+    let texts: Vec<String> = v["inputs"].as_array().unwrap().iter().map(|t| t.as_str().unwrap().to_string()).collect();
+    let mut b = Batch::new();
+    let mut charset: BTreeSet<char> = BTreeSet::new();
+    for t in &texts {
+        charset.extend(t.chars());
+    }
+    let chars: Vec<char> = charset.into_iter().collect();
+    let (spec, atom_of_char) = match atomise(&modes, &chars) {
+        Ok(x) => x,
+        Err(e) => {
+            b.events.push(json!({"op": "reset", "trace": 1}));
+            b.events.push(json!({"op": "leaf-measurement-failed", "what": e}));
+            b.meta.push(json!({"trace": 1, "first_event": 1, "last_event": 2, "modes": describe_modes(&modes), "inputs": texts}));
+            b.write(&args[1]);
+            return 0;
+        }
+    };
+    b.cfgs.push(cfg_to_json(&spec));
+    // inputs in the order the original trace numbered them: the original newiter events name them
+    let orig_inputs: Vec<u64> = { let mut s: Vec<u64> = v["calls_specified"].as_array().unwrap().iter().filter(|e| e["op"] == "newiter").map(|e| e["inp"].as_u64().unwrap()).collect(); s.sort(); s.dedup(); s };
+    let input_ids: Vec<usize> = texts.iter().map(|t| b.add_input(t, &chars, &atom_of_char)).collect();
+    let map_inp = |orig: u64| -> usize { orig_inputs.iter().position(|x| *x == orig).map(|k| k.min(texts.len() - 1)).unwrap_or(0) };
+    let syms: Vec<char> = vec![];
+    let mut w = World::new(&syms);
+    let cfg_of = |_: u64| -> Option<CfgSpec> { None };
+    b.events.push(json!({"op": "reset", "trace": 1}));
+    for e in v["calls_specified"].as_array().unwrap() {
+        let op = e["op"].as_str().unwrap_or("");
+        match op {
+            "reset" => {}
+            "build" => {
+                let cached = e["cached"].as_bool().unwrap_or(false);
+                let sm = crate::parse::to_scanner_modes(&modes);
+                let built = std::panic::catch_unwind(std::panic::AssertUnwindSafe(|| {
+                    let bld = scnr::ScannerBuilder::new().add_scanner_modes(&sm);
+                    if cached { bld.build() } else { bld.build_uncached() }
+                }));
+                match built {
+                    Err(p) => { b.events.push(json!({"op": "panic", "during": "build", "msg": crate::exec::panic_msg(p)})); break; }
+                    Ok(Err(err)) => { b.events.push(json!({"op": "build", "cfg": 1, "cached": cached, "ok": false, "err": err.to_string()})); break; }
+                    Ok(Ok(sc)) => { b.events.push(json!({"op": "build", "cfg": 1, "cached": cached, "ok": true})); w.scanners.push(sc); }
+                }
+            }
+            "newiter" => {
+                let k = map_inp(e["inp"].as_u64().unwrap());
+                let has = |o: &str| v["calls_specified"].as_array().unwrap().iter().any(|x| x["op"] == o);
+                let pos = has("nextpos") && !has("peek") && !has("advance");
+                let obs = w.exec(&json!({"op": "newiter", "sc": e["sc"], "text": texts[k], "off": e["off"]}), &cfg_of, pos);
+                if obs.get("panic").is_some() { b.events.push(json!({"op": "panic", "during": "newiter", "msg": obs["panic"]})); break; }
+                b.events.push(json!({"op": "newiter", "sc": e["sc"], "inp": input_ids[k], "off": e["off"]}));
+            }
+            "panic" | "leaf-measurement-failed" => {
+                // re-issue the call that panicked, if the record says which
+                if let Some(a) = e.get("args") {
+                    let obs = w.exec(a, &cfg_of, false);
+                    let mut logged = a.clone();
+                    for (k2, v2) in obs.as_object().unwrap() { logged[k2] = v2.clone(); }
+                    if obs.get("panic").is_some() { logged = json!({"op": "panic", "args": a, "msg": obs["panic"]}); }
+                    b.events.push(logged);
+                }
+                break;
+            }
+            _ => {
+                let obs = w.exec(e, &cfg_of, false);
+                if obs.get("panic").is_some() {
+                    b.events.push(json!({"op": "panic", "during": op, "args": e, "msg": obs["panic"]}));
+                    break;
+                }
+                // arguments of the original event, results of this run
+                let mut logged = json!({});
+                for k2 in ["op", "it", "sc", "n", "m", "o", "p", "k"] {
+                    if let Some(x) = e.get(k2) { logged[k2] = x.clone(); }
+                }
+                for (k2, v2) in obs.as_object().unwrap() { logged[k2] = v2.clone(); }
+                b.events.push(logged);
+            }
+        }
+    }
+    b.meta.push(json!({"trace": 1, "first_event": 1, "last_event": b.events.len(), "modes": describe_modes(&modes), "inputs": texts}));
+    b.write(&args[1]);
+    0
+}
+
 /// `record <profile> <n traces> <seed> <out dir>`
 pub fn main(args: &[String]) -> i32 {
     if args[0] == "c15" {
